@@ -284,7 +284,7 @@ def run(ctx):
         # idiom (ii): an explicit loop that returns the element whose name equals the requested one
         if not good:
             ps = [p for p in Interp(fb, _P()).run(fo[0], [Sym("repr"), Sym("ops")]) if p.status == "return"]
-            somes = [p for p in ps if isinstance(p.result, Variant) and p.result.variant == "Some"]
+            somes = [p for p in ps if isinstance(p.result, Variant) and p.result.variant in ("Some", "Ok")]
             if somes and all(any(d[2] is True and re.match(EQ, show(d[1])) for d in p.decisions) for p in somes):
                 good = True
         # the index returned with the operator is its position in the WHOLE operator list (the conversions rely on it)
